@@ -98,7 +98,16 @@ func New(id, part, level string) *Run {
 }
 
 func (r *Run) loadKnown() {
-	b, err := os.ReadFile(filepath.Join(r.Root, "known_findings.json"))
+	r.loadKnownFile(filepath.Join(r.Root, "known_findings.json"))
+	more, _ := filepath.Glob(filepath.Join(r.Root, "known_findings.d", "*.json"))
+	sort.Strings(more)
+	for _, f := range more {
+		r.loadKnownFile(f)
+	}
+}
+
+func (r *Run) loadKnownFile(path string) {
+	b, err := os.ReadFile(path)
 	if err != nil {
 		return
 	}
